@@ -414,12 +414,12 @@ Proof.
   intros k. rewrite Hget, get0_empty, (entries_sum_map a ord k Hp). lia.
 Qed.
 
-(** a class outside the constructors' normal form does not round-trip
-    (only reachable through from_class_and_amount with a hand-built class) *)
+(** a map holding a class outside the constructors' normal form does not round-trip; no
+    constructor builds one (Assets_wf.built_wf), the premise above is about raw maps *)
 Lemma exprs_roundtrip_non_normal_refuted :
   exists a a', of_exprs (to_exprs a) = Ok a' /\ ~ a' ≈ a.
 Proof.
-  exists (from_class_and_amount (Named []) 1), (from_naked_amount 1).
+  exists ({[ Named [] := 1 ]} : assets), (from_naked_amount 1).
   split; [vm_compute; reflexivity|].
   intros H. specialize (H Naked). vm_compute in H. discriminate.
 Qed.
